@@ -21,28 +21,41 @@ def _isint(text):
 
 
 # ----------------------------------------------------------------------------- typed comparison (C12 rules)
+def _isfloat(text):
+    t = text
+    if t[:1] in ("-", "+"):
+        t = t[1:]
+    if t.count(".") != 1:
+        return False
+    a, b = t.split(".")
+    return a.isdigit() and b.isdigit()
+
+
 def _term_kind(term):
     t = term
     if _isint(t) and not (len(t.lstrip("+-")) > 1 and t.lstrip("+-")[0] == "0"):
         return "int", int(t)
+    if _isfloat(t):
+        return "float", float(t)
     return "text", None
 
 
 def match_scalar(op, term, value):
-    """Documented answer of `value OP term` for int / str / None values and int or text terms."""
+    """Documented answer of `value OP term` for int / float / str / None values and numeric or text terms."""
     kind, tval = _term_kind(term)
-    if isinstance(value, bool) or isinstance(value, float):
-        raise Undefined("bool/float leaves are outside the model")
-    if isinstance(value, int):
+    if isinstance(value, bool):
+        raise Undefined("bool leaves are outside the model")
+    if isinstance(value, (int, float)):
+        same_kind = (kind == "int" and isinstance(value, int)) or (kind == "float" and isinstance(value, float))
         if op == "=":
-            return value == tval if kind == "int" else str(value) == term
+            return value == tval if same_kind else str(value) == term
         if op == "^":
             return str(value).startswith(term)
         if op == "$":
             return str(value).endswith(term)
         if op == "%":
             return term in str(value)
-        if kind != "int":
+        if kind == "text":
             return False
         return {">": value > tval, "<": value < tval, ">=": value >= tval, "<=": value <= tval}[op]
     if value is None:
@@ -51,7 +64,7 @@ def match_scalar(op, term, value):
         raise Undefined("null against 'None' or under ordering/affix operators")
     if isinstance(value, str):
         low = value.lower()
-        if low in ("true", "false") or value == "None" or _isint(value):
+        if low in ("true", "false") or value == "None" or _isint(value) or _isfloat(value):
             raise Undefined("text that spells a bool/None/number")
         if op == "=":
             return value == term
